@@ -1,4 +1,4 @@
-use skv_verif::fmt_bptree::*;
+
 use std::sync::Arc;
 use surrealkv::bplustree::tree::BPlusTree;
 use surrealkv::BytewiseComparator;
